@@ -165,6 +165,11 @@ func (f *compressFilter) Compress(cfg *redis.Compression, command string, resp *
 		if uint32(len(r.Text)) < cfg.Threshold {
 			continue
 		}
+		// the request is filtered again on every resend (MOVED/ASK): a value
+		// that has been compressed in place already must not be compressed twice.
+		if bytes.HasPrefix(r.Text, cpsHdrs[cfg.Algorithm]) {
+			continue
+		}
 		r.Text = f.compress(r.Text, cfg.Algorithm)
 		resp.Array[i] = r
 	}
